@@ -30,10 +30,10 @@ CHECKS = {
          "For every promise created by a combinator that returns the derived future (19 sites): every path of the creating function completes the promise or registers a literal every path of which completes it or registers, recursively, one that does; Apply/Apply2 run the user function under a deferred recover that fails the promise with the panic value; nested subscriptions on two Future operands follow declaration order, so a failed earlier operand is reported without waiting for a later one (R-SUBORDER); inside one operand's completion callback another operand is subscribed to only behind a test of the callback's Try (R-FUTSTOP); an OnComplete call-back literal that names its parameter mentions it (R-CBPARAM).",
          "§4 C06", "value equality with the Try-level evaluation, 'never earlier', positional order of Sequence/Traverse"),
  "C09": ("mirrored-accessor-path rule, instance-parameter relevance, hash/eq component-subset rule, hash determinism deny-list (AST, go/types)",
-         "Structural conditions of component-wise equality and of hash/eq agreement: every component Eqv/Less/Compare call in eq, hash and ord applies the same accessor path to the two different operands; every instance parameter is used; for every hash.New(E, h) the instances consulted by h are a subset of those E is built from; hash functions (including those of package-level instances) use no unsafe/reflect/uintptr/%p/float bit patterns/map iteration/time/rand and no package-level state shared between callers, and do not single out the nil container unless the equality does; a container equality returns true only where equal sizes are established; an Eq over Go maps looks the other map up with the comma-ok form; the projection handed to ContraMap in eq/hash contains no bounded slice, index or remainder/mask arithmetic (R-CONTRA).",
+         "Structural conditions of component-wise equality and of hash/eq agreement: every component Eqv/Less/Compare call in eq, hash and ord applies the same accessor path to the two different operands; every instance parameter is used; for every hash.New(E, h) the instances consulted by h are a subset of those E is built from; hash functions (including those of package-level instances) use no unsafe/reflect/uintptr/%p/float bit patterns/map iteration/time/rand and no package-level state shared between callers, and do not single out the nil container unless the equality does; a container equality returns true only where equal sizes are established; an Eq over Go maps looks the other map up with the comma-ok form; the projection handed to ContraMap in eq/hash contains no bounded slice, index or remainder/mask arithmetic (R-CONTRA); a container equality that iterates one operand consults the size of both (R-BOTHSIZES); a pointer parameter of a binary closure is dereferenced only behind a nil test of that parameter (R-PTRDEREF).",
          "§4 C09", "reflexivity/symmetry/transitivity and hash agreement as statements over all values"),
  "C10": ("one-sided-comparison rule (R-LEX), mirrored accessor paths, sort.Interface shape check (AST, go/types)",
-         "Structural necessary conditions of a strict total order / ordered permutation: every component Less test that falls through to further components is followed by the mirrored test; component calls use the same accessor path on both operands; every in-module sort.Interface keeps index order, swaps exactly i and j and reports len of the same slice; Compare results are examined by sign only; less functions are strict (no <=, no negated less); binary instances never exchange their operands; R-LEX also covers direct calls of a LessFunc value; a less-based Compare returns a non-zero constant only under the less test of the matching direction (R-TRICHOTOMY); the payload of Option/Try.Unapply is used only behind the success edge of a test of its flag (R-PAYLOAD); a container comparison of package ord returns 0 only under established equal sizes; Min/Max of seq, list and iterator put no made-up value (OrZero/fp.Zero) into a result and the siblings of one name agree on the tie rule of their selection step (R-MINMAX).",
+         "Structural necessary conditions of a strict total order / ordered permutation: every component Less test that falls through to further components is followed by the mirrored test; component calls use the same accessor path on both operands; every in-module sort.Interface keeps index order, swaps exactly i and j and reports len of the same slice; Compare results are examined by sign only; less functions are strict (no <=, no negated less); binary instances never exchange their operands; R-LEX also covers direct calls of a LessFunc value; a less-based Compare returns a non-zero constant only under the less test of the matching direction (R-TRICHOTOMY); the payload of Option/Try.Unapply is used only behind the success edge of a test of its flag (R-PAYLOAD); a container comparison of package ord returns 0 only under established equal sizes; Min/Max of seq, list and iterator put no made-up value (OrZero/fp.Zero) into a result and the siblings of one name agree on the tie rule of their selection step (R-MINMAX); a pointer parameter of a binary closure of package ord is dereferenced only behind a nil test of that parameter (R-PTRDEREF).",
          "§4 C10", "transitivity/totality of leaf instances; Min/Max semantics as values"),
  "C11": ("operator/identity table over resolved monoid constructions, named-instance binding, discarded-result and fold-argument-role rules (AST, go/types)",
          "Structural necessary conditions: a monoid built from a built-in operator and a constant uses that operator's identity and an associative operator; Sum/Product/Any/All/String are bound to +,*,||,&&,+; no pure typeclass result is discarded; Combine is called (accumulator, element) in left folds and (element, rest) in FoldRight call-backs; tuple/HCons/Dual combine the same component of both operands in the stated order; every fold over a monoid consults Empty; binary instances never exchange their operands; a Combine closure over pointer/map/slice operands never writes through them nor appends onto them; a Monoid combinator consults the Empty of every Monoid parameter or hands it on as a Monoid, not only as a Semigroup (R-EMPTYUSED).",
@@ -48,7 +48,7 @@ CHECKS = {
          "Type-level argument: every member <Family><N> has pairwise distinct type parameters on its bare-typed value positions, fabricates no value, uses no assertion/reflect/panic/loop, uses every positional parameter, and recurses only to a smaller arity — so the type checker forces argument i to position i; every GenerateFromUntil family is declared for exactly the arities its directive prescribes; the typeclass TupleN families use every component instance on the same component of both operands, in operand order for Combine; every member of a generated arity family (two smallest arities and the largest exempt) uses the same callees, digits removed, as the majority of its family (R-SIBLING).",
          "§4 C14", "effect order inside LiftAN/MapN; String()/Name() formats; the parametricity meta-theorem is trusted, not mechanised"),
  "C15": ("per-method rules on go/cfg for every UnmarshalJSON/MarshalJSON of the module",
-         "For every UnmarshalJSON: the pointer receiver is rejected when nil before any dereference and every store through it happens only when decoding reported no error (or every later return is nil); for every MarshalJSON: the receiver itself is never handed to json.Marshal; fp.Option emits null exactly on the not-defined side and the payload's encoding otherwise; the decoder is never handed the target itself; no Go-syntax quoting in MarshalJSON; no UnmarshalJSON switches its decoder to UseNumber; an index / bounded slice of the input bytes is reached only through a condition on their length (R-JSONBOUNDS).",
+         "For every UnmarshalJSON: the pointer receiver is rejected when nil before any dereference and every store through it happens only when decoding reported no error (or every later return is nil); for every MarshalJSON: the receiver itself is never handed to json.Marshal; fp.Option emits null exactly on the not-defined side and the payload's encoding otherwise; the decoder is never handed the target itself; no Go-syntax quoting in MarshalJSON; no UnmarshalJSON switches its decoder to UseNumber; an index / bounded slice of the input bytes is reached only through a condition on their length (R-JSONBOUNDS); no MarshalJSON returns a package-level slice (R-JSONFRESH).",
          "§4 C15", "round-trip equality and agreement with encoding/json on the Mutable twin for all struct shapes"),
  "C16": ("memoiser shape rule, thunk-reference counting, trampoline call-shape rules, deferred-self-call rule, nil-fact dataflow",
          "Run-once and trampoline clauses: memoisers run the computation only inside once.Do of a per-value sync.Once, first thing in the returned closure; Call/TailCall/MakeList hand their thunk to a memoiser and reference it nowhere else; building an Eval calls no function value eagerly; Run loops on Resume and neither calls back into Run/Get; FoldRight functions defer their self call through lazy.TailCall and never force their own recursive result (no nested trampoline); closures of package lazy write captured variables of the enclosing function only inside once.Do (no cell shared between evaluations); zero Eval is guarded.",
@@ -60,7 +60,7 @@ CHECKS = {
          "Structural necessary conditions for deep copies: every component-instance parameter of every clone combinator is used, and in every clone closure each use of the input is cloned through a component instance (Clone call, map with a Clone method value, range, nil/len test) — nothing of the input reaches the result uncloned; a clone closure never returns the address of, or a reference held in, a captured variable (results are fresh per call); every return of a combinator with component instances mentions one of them (R-INSTPATH).",
          "§4 C18", "structural equality incl. nil-vs-empty"),
  "C19": ("must-hold lock dataflow on SSA, E1 snapshot immutability, syntactic single-load and check-then-act rules",
-         "Structural conditions of linearizability: every Store on the snapshot cell happens under the map's mutex and every exit releases it; no method (nor a literal handed to copyOnWrite) writes a map loaded from the cell; read-only methods load the snapshot once; a method that reads outside the lock before copyOnWrite re-derives its decision from the literal's own parameter and returns nothing read after the critical section; the snapshot a published value derives from is read under the lock; every operation publishes at most one snapshot (no publishing call in a loop or twice on one path); the innermost condition deciding a Store, if it examines the cell, examines a value read under the lock; a method that publishes through another method returns nothing read from the map after that call.",
+         "Structural conditions of linearizability: every Store on the snapshot cell happens under the map's mutex and every exit releases it; no method (nor a literal handed to copyOnWrite) writes a map loaded from the cell; read-only methods load the snapshot once; a method that reads outside the lock before copyOnWrite re-derives its decision from the literal's own parameter and returns nothing read after the critical section; the snapshot a published value derives from is read under the lock; every operation publishes at most one snapshot (no publishing call in a loop or twice on one path); the innermost condition deciding a Store, if it examines the cell, examines a value read under the lock; a method that publishes through another method returns nothing read from the map after that call; when the critical section can keep the snapshot, the method does not return the value it meant to store.",
          "§4 C19", "linearizability over all interleavings"),
  "C20": ("path-sensitive nil-fact dataflow on SSA (R-NILGUARD), fabricated-return rule, must-hold lock dataflow on SSA",
          "Three clauses: every call through Iterator.hasNext is dominated by its nil test (zero Iterator behaves as empty); no MakeIterator next() returns a fabricated zero value; in Duplicate every access to the shared queue/flag/source happens with the mutex held and every exit releases it; when hasNext keeps look-ahead state, next re-establishes it through hasNext or its refill helper; calls into the source iterator made under Duplicate's mutex are covered by a deferred Unlock (a panicking Next does not leave the mutex held); when hasNext depends on state that next updates, next does not guard its pull with the source's HasNext alone; a pulled element reaches a look-ahead variable only through a condition on the predicate's verdict (R-CACHEGUARD); the closure fields of an Iterator value other than the receiver are called only under an explicit nil test (R-RAWFIELD).",
